@@ -5,7 +5,8 @@ import CnbVerif.Base.Proto
 "… the marker-splitting mapped writer emits the mapping of each marker-terminated segment and of the non-empty
 remainder regardless of how the input was split across write calls. The tee writer gives both targets the full input.
 Running a command with stream capture delivers every byte the child wrote to stdout and to stderr, in order per stream,
-both to the supplied writers and to the returned output."
+both to the supplied writers and to the returned output, and returns once both streams close, whatever the volume and
+interleaving of the two streams."
 
 Everything here is a function of the **whole input** (the concatenation of all writes / the child's script); nothing refers
 to chunks, buffers or pipes.
@@ -48,5 +49,46 @@ abbrev Script := List (Bool × Bytes)
 def streamBytes (stream : Bool) : Script → Bytes
   | [] => []
   | (s, bytes) :: rest => if s = stream then bytes ++ streamBytes stream rest else streamBytes stream rest
+
+/-! ## "… and returns once both streams close"
+
+The call that hands the child back (`spawn_and_write_streams`) returns when both streams are closed — not when the process ends.
+A child is described by what it does and when: each action comes after a pause (ms). -/
+
+inductive Act
+  | write (stream : Bool) (bytes : Bytes)
+  /-- the child closes its end of one stream (`false` = stdout, `true` = stderr) and lives on -/
+  | close (stream : Bool)
+  | closeBoth
+  /-- nothing visible: the process is just alive -/
+  | idle
+deriving Repr
+
+/-- a child's life: (pause in ms before the action, action); after the last action it exits -/
+abbrev Life := List (Nat × Act)
+
+/-- every byte the child wrote to one stream, in order -/
+def lifeBytes (stream : Bool) : Life → Bytes
+  | [] => []
+  | (_, .write s bytes) :: rest => if s = stream then bytes ++ lifeBytes stream rest else lifeBytes stream rest
+  | _ :: rest => lifeBytes stream rest
+
+/-- For how many ms the process certainly stays alive after it has closed both streams itself: the pauses after the action that
+closed the second of them (`oClosed` / `eClosed`: already closed before this point). `0` when it never closes both: then the
+streams close with its exit. -/
+def outlives (oClosed eClosed : Bool) : Life → Nat
+  | [] => 0
+  | (_, act) :: rest =>
+    let o := oClosed || (match act with | .close false => true | .closeBoth => true | _ => false)
+    let e := eClosed || (match act with | .close true => true | .closeBoth => true | _ => false)
+    if o && e then (rest.map (·.1)).foldl (· + ·) 0 else outlives o e rest
+
+/-- what the oracle allows the parent for its own work between the EOF of the second stream and the return (thread wake-up, join) -/
+def returnAllowanceMs : Nat := 1000
+
+/-- **returns once both streams close**, for the call that hands the running child back: if the child stays alive for at least
+`returnAllowanceMs` after closing both streams, it is still running when the call returns. (`none`: nothing to judge.) -/
+def mustBeRunningAtReturn (life : Life) : Option Bool :=
+  if outlives false false life ≥ returnAllowanceMs then some true else none
 
 end CnbVerif.Spec.Streaming
